@@ -57,6 +57,7 @@ func (t probeTimer) Reset(d time.Duration) bool {
 
 type cpCase struct {
 	InitMS, MaxMul, Cap int
+	MaxExtra            int
 	Adds                int    // Adds before the clock is stepped to the window's end
 	Point               string // which clock call
 	Nth                 int    // which occurrence of it (1-based)
@@ -71,7 +72,7 @@ func runClockPoint(t *testing.T, c cpCase) (fired bool, err error) {
 	var errs vk.Errs
 	berr := vk.Bubble(t, c.String(), func() {
 		init := time.Duration(c.InitMS) * time.Millisecond
-		max := init * time.Duration(c.MaxMul)
+		max := init*time.Duration(c.MaxMul) + time.Duration(c.MaxExtra)*time.Millisecond
 		opts := ratelimiting.OptionsCoalescing{InitialDelay: &init, MaxDelay: &max}
 		if c.Cap > 0 {
 			cp := c.Cap
@@ -195,6 +196,7 @@ func TestCoalescingClockCallPoints(t *testing.T) {
 		c := cpCase{InitMS: rapid.SampledFrom([]int{2, 10}).Draw(rt, "initMS"), MaxMul: rapid.SampledFrom([]int{1, 2, 4}).Draw(rt, "maxMul"), Cap: rapid.SampledFrom([]int{0, 0, 2, 3}).Draw(rt, "cap"),
 			Adds: rapid.IntRange(1, 4).Draw(rt, "adds"), Point: rapid.SampledFrom(points).Draw(rt, "point"), Nth: rapid.IntRange(1, 4).Draw(rt, "nth"),
 			Step: rapid.SampledFrom([]string{"end", "end+1ms", "half-then-end"}).Draw(rt, "step")}
+		c.MaxExtra = genMaxExtra(rt, c.InitMS)
 		fired, err := runClockPoint(t, c)
 		if err != nil {
 			rt.Fatalf("C09 coalescing rate limiter violated: %v\ncase: %s", err, c)
